@@ -399,13 +399,17 @@ class Padding(WidgetDecoration[WrappedWidget], typing.Generic[WrappedWidget]):
             return frows
         return self._original_widget.rows((maxcol - left - right,), focus=focus)
 
+    def _fixed_child_size(self) -> tuple[()] | tuple[int]:
+        """Size that render gives self._original_widget when self is sized as FIXED."""
+        return (self._width_amount,) if self._width_type == WHSettings.GIVEN else ()
+
     def keypress(self, size: tuple[()] | tuple[int] | tuple[int, int], key: str) -> str | None:
         """Pass keypress to self._original_widget."""
         left, right = self.padding_values(size, True)
         if size:
             maxvals = (size[0] - left - right,) + size[1:]
             return self._original_widget.keypress(maxvals, key)
-        return self._original_widget.keypress((), key)
+        return self._original_widget.keypress(self._fixed_child_size(), key)
 
     def get_cursor_coords(self, size: tuple[()] | tuple[int] | tuple[int, int]) -> tuple[int, int] | None:
         """Return the (x,y) coordinates of cursor within self._original_widget."""
@@ -418,7 +422,7 @@ class Padding(WidgetDecoration[WrappedWidget], typing.Generic[WrappedWidget]):
             if maxvals[0] == 0:
                 return None
         else:
-            maxvals = ()
+            maxvals = self._fixed_child_size()
 
         if (coords := self._original_widget.get_cursor_coords(maxvals)) is not None:
             x, y = coords
@@ -445,7 +449,7 @@ class Padding(WidgetDecoration[WrappedWidget], typing.Generic[WrappedWidget]):
             maxvals = (maxcol - left - right,) + size[1:]
         else:
             maxcol = self.pack((), True)[0]
-            maxvals = ()
+            maxvals = self._fixed_child_size()
 
         if isinstance(x, int):
             if x < left:
@@ -476,7 +480,7 @@ class Padding(WidgetDecoration[WrappedWidget], typing.Generic[WrappedWidget]):
                 return False
             maxvals = (maxcol - left - right,) + size[1:]
         else:
-            maxvals = ()
+            maxvals = self._fixed_child_size()
 
         return self._original_widget.mouse_event(maxvals, event, button, col - left, row, focus)
 
@@ -489,7 +493,7 @@ class Padding(WidgetDecoration[WrappedWidget], typing.Generic[WrappedWidget]):
         if size:
             maxvals = (size[0] - left - right,) + size[1:]
         else:
-            maxvals = ()
+            maxvals = self._fixed_child_size()
 
         x = self._original_widget.get_pref_col(maxvals)
         if isinstance(x, int):
